@@ -120,10 +120,10 @@ def main(tier, seed):
     cov['samples'] = [h for _t, h in obs[11:13]]
     spec_set = set(failing['spec'])
     for i in failing['spec']:
-        dec.report(dict(kind='max-length-not-honoured', **obs[i][1]))
+        dec.report(dict(obs[i][1], kind='max-length-not-honoured'))
     for i in failing['corr']:
         if i not in spec_set:
-            dec.report(dict(kind='model-differs', theorem='correspondence max_corr', **obs[i][1]), no_input=True)
+            dec.report(dict(obs[i][1], kind='model-differs', theorem='correspondence max_corr'), no_input=True)
     for name, out in broken:
         dec.report(dict(kind='case-file-broken', file=name, detail=out), no_input=True)
     run.keep = bool(dec.violations)
